@@ -40,10 +40,7 @@ TEMPLATE_ALLOW = {
     (common.TOK % "variant::UnitMatchArm<'_>", "unsupported_format"): "inside generated from_string(lit: &str): a hook without a node; the dispatcher attaches the value's span",
     (common.TOK % "from_meta_impl::FromMetaImpl<'_>", "unknown_value"): "inside generated from_string: hook without a node",
 }
-TEMPLATE_FINDINGS = {
-    (common.TOK % "from_meta_impl::FromMetaImpl<'_>", "unsupported_format"): "F15",
-    (common.TOK % "variant::DataMatchArm<'_>", "unsupported_format"): "F15",
-}
+TEMPLATE_FINDINGS = {}
 
 
 def runtime_bodies(ctx, core):
